@@ -12,11 +12,16 @@ EAEXTS = [(".abstract", "ABSTRACT"), (".keywords", "KEYWORDS"), (".ask", "ASK"),
 ADMIN = "Unconfigured Pygopherd Admin <pygopherd@nowhere.nowhere>"
 LINE_POOL = ["A plain line", "Second: with colon", "+INFO: 0fake /fake host 70", "+ADMIN:", " leading blank kept",
              "trailing blanks dropped   ", "Ask: What is your name?", "Note: x", "+VIEWS:", "tab\tinside", "café ü",
-             "<tag> & entity", "+", "-", "  two leading", "x" * 200]
+             "<tag> & entity", "+", "-", "  two leading", "x" * 200,
+             "caf\udce9 in ISO 8859-1", "\udcff\udcfe not UTF-8 at all", "50% off %s {0}"]
 
 
 def gen_sidecar(rng) -> typing.Tuple[bytes, typing.List[str]]:
-    n = rng.randrange(1, 7)
+    n = rng.randrange(0, 7)
+    if n == 0:
+        # an empty sidecar file, or one holding only a line break: a block with no lines (trailing
+        # blank lines are nowhere compared: the entry reader drops them)
+        return rng.choice([b"", b"", b"\n", b"\r\n"]), []
     lines = [rng.choice(LINE_POOL) for _ in range(n)]
     if n > 2 and rng.random() < 0.4:
         lines[rng.randrange(1, n - 1)] = ""        # an interior blank line
@@ -24,7 +29,7 @@ def gen_sidecar(rng) -> typing.Tuple[bytes, typing.List[str]]:
         lines[-1] = "last"
     nl = rng.choice(["\n", "\r\n"])
     text = nl.join(lines) + rng.choice(["", nl])
-    return text.encode("utf-8"), [ln.rstrip() for ln in lines]
+    return text.encode("utf-8", "surrogateescape"), [ln.rstrip() for ln in lines]
 
 
 def gen_dir(rng, scratch: str):
@@ -33,7 +38,7 @@ def gen_dir(rng, scratch: str):
     exts = [".txt", ".gif", ".pdf", ".png", ".qqq", "", ".mp3"]
     for i in range(rng.randrange(2, 7)):
         ext = rng.choice(exts)
-        n = "item%d%s" % (i, ext)
+        n = "item%d%s%s" % (i, rng.choice(["", "", "", "-caf\udce9", " 50% {0}"]), ext)
         size = rng.choice([0, 1, 1023, 1024, 1025, 5000, 10240, 70000])
         data = trees.gen_content(rng, size, rng.choice(["text", "binary"]))
         t.file("d/" + n, data)
@@ -104,7 +109,7 @@ def check_item_blocks(chk: Check, name: str, it: typing.Optional[dict], blocks, 
                     dict(sample, item=name, blocks=extra, expected=want))
         return False
     for bname, lines in blocks[3:]:
-        exp = [x.encode("utf-8") for x in it["ea"][bname]]
+        exp = [x.encode("utf-8", "surrogateescape") for x in it["ea"][bname]]
         if lines != exp:
             chk.witness("C15/sidecar-block-lines", dict(sample, item=name, block=bname, got=lines[:4], expected=exp[:4]))
             return False
@@ -154,7 +159,7 @@ def run_case(chk: Check, sc: Scratch, idx: int) -> None:
                 return
         # '!' for every item must give the same blocks as its entry in '$'
         for nm, blocks in by_name.items():
-            req, _ = reqs.render("gopherp!", b"/d/" + nm.encode())
+            req, _ = reqs.render("gopherp!", b"/d/" + nm.encode("utf-8", "surrogateescape"))
             r = site.request(req)
             v = validate.validate(r, req)
             if not v.ok or v.klass != "info" or len(v.parsed["items"]) != 1:
@@ -170,7 +175,7 @@ def run_case(chk: Check, sc: Scratch, idx: int) -> None:
             # '+' : exact length or the unknown-length marker
             it = items[nm]
             if it["kind"] == "file":
-                req, _ = reqs.render("gopherp+", b"/d/" + nm.encode())
+                req, _ = reqs.render("gopherp+", b"/d/" + nm.encode("utf-8", "surrogateescape"))
                 r = site.request(req)
                 try:
                     d = parsers.parse_gopherplus(r.data)
